@@ -1,0 +1,64 @@
+//go:build verif
+// +build verif
+
+package vm
+
+// Verification hooks (build tag "verif"): a tracer installed by a test
+// harness observes the machine state at the start of a run and after every
+// executed instruction.  Nothing is installed by default.
+
+// VerifState is the machine state shown to a tracer.
+type VerifState struct {
+	VM      *VM
+	PP, IP  int
+	Op      byte
+	Depth   int
+	Scopes  int
+	Memory  int
+	Limit   int
+	HasTop  bool
+	Top     interface{}
+	Program *Program
+	Env     interface{}
+}
+
+// VerifTracer receives the hook events.  Step may block (scheduler gate).
+type VerifTracer interface {
+	Begin(s VerifState)
+	Step(s VerifState)
+}
+
+// VerifHook returns the tracer for a run, or nil.  It is consulted once per
+// run, so different goroutines can be given different tracers.
+var VerifHook func(vm *VM) VerifTracer
+
+type verifSlot struct{ tracer VerifTracer }
+
+func verifState(vm *VM, op byte) VerifState {
+	s := VerifState{VM: vm, PP: vm.pp, IP: vm.ip, Op: op, Depth: len(vm.stack), Scopes: len(vm.scopes),
+		Memory: vm.memory, Limit: vm.limit}
+	if len(vm.stack) > 0 {
+		s.HasTop = true
+		s.Top = vm.stack[len(vm.stack)-1]
+	}
+	return s
+}
+
+func verifBegin(vm *VM, program *Program, env interface{}) {
+	vm.verif.tracer = nil
+	if VerifHook == nil {
+		return
+	}
+	vm.verif.tracer = VerifHook(vm)
+	if vm.verif.tracer != nil {
+		s := verifState(vm, 0)
+		s.Program, s.Env = program, env
+		vm.verif.tracer.Begin(s)
+	}
+}
+
+func verifStep(vm *VM, op byte) {
+	if vm.verif.tracer != nil {
+		vm.verif.tracer.Step(verifState(vm, op))
+	}
+}
